@@ -19,7 +19,7 @@ PROP_FILE = "Props/C42.v"
 THEOREMS = ["C42_documents_are_the_runs", "C42_one_span_per_run", "C42_ended_at_most_once", "C42_span_fate",
             "C42_each_run_span_ends_once_with_own_status", "C42_per_run", "C42_open_run_span_live",
             "C42_refused_messages_are_silent", "C42_e_refuted", "C42_f_refuted"]
-COQ_IMPORTS = "From BV Require Import Engine.Spans.\nFrom Coq Require Import NArith."
+COQ_IMPORTS = "From BV Require Import Base.KeyMap Engine.Spans.\nFrom Coq Require Import NArith."
 MODELLED = ("Modelled (Engine/Spans.v, of the code with fixes/C42-a.diff): RunEngine._run_tracing_spans as a dict run key -> span, "
             "_open_run (duplicate-key check, rejection by scan_id_source/md_validator/md_normalizer as an arbitrary flag, bundler "
             "registration, RunStart, then the span), _close_run/_close_run_trace (unknown key, RunStop with `exit_status or 'success'`/"
